@@ -53,7 +53,7 @@ class Stats:
         self.sigs.add(h64(obj))
 
     def violation(self, kind, detail, replay):
-        if len(self.violations) < 20:
+        if sum(1 for v in self.violations if v['kind'] == kind) < 4:   # cap per kind, never crowd out a kind
             self.violations.append({'kind': kind, 'detail': detail, 'replay': replay})
         self.count('violations_total')
         self.count('viol_' + kind)
@@ -67,7 +67,7 @@ class Stats:
         self.transitions += o.transitions
         self.sigs |= o.sigs
         for v in o.violations:
-            if len(self.violations) < 50:
+            if sum(1 for u in self.violations if u['kind'] == v['kind']) < 8:
                 self.violations.append(v)
         for s in o.samples:
             if len(self.samples) < 6:
